@@ -245,8 +245,17 @@ def one_c09(args):
             for j in range(3): ops.append('put %s z%d_%d %d' % (sc.keys[0], t, j, 30000 + 1000 * j))
     sched = k8lib.gen_schedule(vlib.Rng(sched_seed), abs_trace=want_abs)
     sched['reopen'] = 0 if rng.chance(1, 2) else 1
+    # every fourth stall / writers run also has one table fsync fail (background error while writers are queued or
+    # stalled): every call must still return (with an error), nobody may sleep forever
+    faults = prof in ('stall', 'writers', 'closebg') and idx % 4 == 1
+    if faults:
+        sched['failsync'] = rng.range(1, 3); sched['reopen'] = 0
+        if prof != 'stall':
+            for t, ops in enumerate(sc.threads):
+                for j in range(4): ops.insert(rng.below(len(ops) + 1), 'put %s f%d_%d %d' % (sc.keys[0], t, j, 30000 + 500 * j))
     run = k8lib.run_k8(exe, base, idx, sc, sched)
-    problems = k8lib.check_liveness(run, sc)
+    problems = k8lib.check_liveness(run, sc, faults=faults)
+    if faults: want_abs = False
     absres = None
     if want_abs and model and not problems:
         # waker obligations on the observed trace: popped followers and the new head are signalled, every end of a
@@ -337,7 +346,7 @@ def run_c09(rep, tier, seed):
                        'extracted Coq trace checker (waker obligations: popped followers and new head signalled, bg call / bg_error broadcast, no wait without a scheduled call); distinct_nontrivial = schedules in which >= 1 writer waited in the queue '
                        'and >= 1 thread waited for background work; h_* = totals reported by the harness (queue waits, background waits, memtable switches, background calls)')
     rep.assumptions += ['schedules are sampled, not enumerated', 'close is called after the client threads were joined (API contract); background work may still be running',
-                        'no I/O faults injected here (see C12)']
+                        'I/O faults: only a failing table fsync (background error) in a quarter of the stall/writers/closebg runs; see C12 for the rest']
     return results
 
 # ------------------------------------------------------------------ replay
